@@ -307,6 +307,31 @@ fn unit_contrib(world: &World, s: &SendStep, idx: usize) -> Option<Contrib> {
 }
 
 impl StepHandler for H16 {
+    /// a device event (condition change): the summary bits `*STB?` is about to report must follow
+    /// the history of those events, so a lost or invented change shows here
+    fn on_hw(&mut self, world: &World, _before: &ModelState, model: &ModelState, i: usize, op: &HwOp, _stats: &mut Stats, out: &mut Vec<Finding>) {
+        if model.plain488 {
+            return;
+        }
+        let dev = world.adopt();
+        let differs = self.viable.iter().all(|r| match (model.summary(op.reg, *r), dev.summary(op.reg, *r)) {
+            (Some(a), Some(b)) => a != b,
+            _ => false,
+        });
+        if differs && !self.viable.is_empty() {
+            let (m, d) = (model.reg_ref(op.reg), dev.reg_ref(op.reg));
+            out.push(Finding::new(
+                "C16.state",
+                "summary_wrong_after_device_event",
+                i,
+                format!(
+                    "{:?} after the hardware {:?} {:#06x}: condition/event/enable are {:#06x}/{:#06x}/{:#06x}, the history of condition changes gives {:#06x}/{:#06x}/{:#06x} (summary bit for *STB? differs)",
+                    op.reg, op.op, op.value, d.cond, d.event, d.enable, m.cond, m.event, m.enable
+                ),
+            ));
+        }
+    }
+
     fn on_send(&mut self, world: &mut World, before: &ModelState, i: usize, s: &SendStep, o: &SendObs, stats: &mut Stats, out: &mut Vec<Finding>) {
         let preds: Vec<(Reading, Pred)> = self.viable.iter().map(|r| (*r, super::predict_seen(world, before, s, o, *r))).collect();
         let pred = &preds[0].1;
